@@ -54,6 +54,8 @@ func codecCore(ops *typeOps) {
 	// ---- size, by pointer and by value (C04), value frozen (C16) ----
 	vrt.SetOwner("impl")
 	vrt.Freeze("user", true)
+	vrt.Freeze("setup", true) // steady state: descriptors and caches built during registration are shared, read-only
+	vrt.Freeze("init", true)
 	vrt.Phase("encode")
 	sz := EncodedSize(pv)
 	vrt.Check(sz == n, "C04 EncodedSize(ptr) == reference length")
@@ -132,6 +134,8 @@ func codecCore(ops *typeOps) {
 		ops.Walk(pw, wk)
 	}
 	vrt.Freeze("buf", false)
+	vrt.Freeze("setup", false)
+	vrt.Freeze("init", false)
 	vrt.Observe("reenc", refEncodeStruct(ops.St, got, nil))
 	vrt.Phase("")
 	vrt.Reach("end")
@@ -440,12 +444,16 @@ func decmsgWith(w, t *typeOps, pred func()) {
 	rn, want, rok := refDecodeStruct(t.St, buf, dst, &d, 1<<20)
 	vrt.Freeze("buf", true)
 	vrt.Freeze("user", true)
+	vrt.Freeze("setup", true)
+	vrt.Freeze("init", true)
 	vrt.FreezePtr(unsafe.Pointer(reflectDataPtr(pw)), false) // the destination struct itself is written
 	vrt.SetOwner("dec")
 	vrt.Phase("decode")
 	n, err := DecodeObject(buf, pw)
 	vrt.Phase("")
 	vrt.Freeze("user", false)
+	vrt.Freeze("setup", false)
+	vrt.Freeze("init", false)
 	vrt.Check((err == nil) == rok, "C03 a well-formed message decodes successfully (and only then)")
 	if rok && err == nil {
 		vrt.Check(rn == len(msg), "harness: reference consumed the whole message")
